@@ -83,7 +83,7 @@ def check_case(ctx, case):
     mode = case.get("mode", "dag")
     names = sorted(S.variables(s))
     ctx.count("cases")
-    shared = S.build(s, mode)       # one long-lived expression object for all gradients of the case
+    shared, parts = C.build_with_parts(s, mode)   # one long-lived expression object for all gradients of the case
     firsts = []
     for pj in case["points"]:
         p = S.point_from_json(pj)
@@ -163,7 +163,12 @@ def check_case(ctx, case):
     # (end of check_case) the same gradients again on the long-lived object, in reverse order, with evaluations in between
     import smoothmath as sm
     for i, (gname, p, var, out) in enumerate(reversed(firsts[-12:])):
-        M.call(shared.at, sm.Point(**firsts[i % len(firsts)][1]))
+        q_ = firsts[(i + 1) % len(firsts)][1]
+        M.call(shared.at, sm.Point(**p))                     # the root itself at p ...
+        if parts:
+            M.call(parts[(i * 3) % len(parts)].at, sm.Point(**q_))   # ... then a sub-expression the caller holds, as its own root, elsewhere
+        else:
+            M.call(shared.at, sm.Point(**q_))
         mk = dict(_gradient_objects(lambda: shared, p))[gname]
         g = M.call(mk, numeric=False)
         ctx.count("revisits")
